@@ -61,6 +61,21 @@ def gen_cases(ctx):
                 if rng.random() < 0.7:
                     d[by[0][0]] = rng.choice([0, 1, 2, 3])
         op = rng.choice(JOINS + ["aggregate"])
+        if op == "aggregate":
+            r = rng.random()
+            if r < 0.3 and not renamed:
+                # group keys are data: a key may be NAMED like a parameter of some method (sort's `key` / `reverse`, ...)
+                special = rng.choice(["key", "reverse", "key", "reverse", "dir", "n"])
+                old_name = by[0][0]
+                left = [{(special if kk == old_name else kk): v for kk, v in d.items()} for d in left]
+                by = [[special, special]] + by[1:]
+            elif r < 0.5:
+                # the same key given twice with another in between: the partition is that of the distinct keys, the
+                # order of the groups that of the keys AS GIVEN (first occurrence decides the priority)
+                names = [x[0] for x in by]
+                other = [k for k in ("a", "b") if k not in names and all(k in d for d in left)]
+                seq = [names[0]] + (other[:1] or names[1:2]) + [names[0]]
+                by = [[k, k] for k in seq]
         # a (left, right) pair may be written as a tuple or as a two-element list, and also when both names are the same
         cases.append({"op": op, "left": left, "right": right, "by": by, "spell": rng.choice(["tuple", "tuple", "list", "list", "pair-always"])})
     return cases
@@ -135,7 +150,7 @@ def judge(ctx, case, obs, mouts):
             if rkey(r) == lkey(d):
                 return r
         return None
-    fm = [first(d) for d in left]
+    fm = [first(d) for d in left] if op != "aggregate" else []
     if op == "aggregate":
         groups = {}
         for d in left:
